@@ -12,6 +12,8 @@ CONSTANTS
   Suspenders <- XSus
   SigOf <- SigOfDef
   SusFuts <- SusFutsDef
+  SusBand = {}
+  NoReplayDevs = {}
   MaxSusOps = 2
   ReadVal <- ReadValDef
   DataKeys <- DataKeysDef
